@@ -79,7 +79,16 @@ def check(index, ctx):
                     ctx.violated("R2", k_, f"`{e['text'][:80]}` caps vmap's own chunk size at {cap}: a block of more than {cap} rows is differentiated in several passes of the VJP callable — more sweeps "
                                  "than ceil(rows / k), and with retain_graph=False the second pass of the last block differentiates a freed graph", e["loc"])
                 else:
-                    ctx.undecided("R2", k_, f"vmap's chunk_size (`{e['kwargs'].get('chunk_size')}`) is not the row count of the block; whether it can be smaller was not decided", e["loc"])
+                    # not readable off the expression (a parameter of a factory, ...): what the instance runs observe, for both entry points
+                    vs_ = [_inst.verdict(index, en_, "vmapchunk") for en_ in ("backward", "mtl_backward")]
+                    if any(v_[0] == "violated" for v_ in vs_):
+                        v_ = next(v_ for v_ in vs_ if v_[0] == "violated")
+                        ctx.violated("R2", k_, v_[1], e["loc"], derivation=v_[2])
+                    elif all(v_[0] == "ok" for v_ in vs_):
+                        ctx.ok("R2", k_, vs_[0][1] + " [the expression itself was not read: `" + str(e['kwargs'].get('chunk_size'))[:40] + "`]", e["loc"], derivation=vs_[0][2])
+                    else:
+                        ctx.undecided("R2", k_, f"vmap's chunk_size (`{e['kwargs'].get('chunk_size')}`) is not the row count of the block; whether it can be smaller was not decided "
+                                      f"({next(v_[1] for v_ in vs_ if v_[0] != 'ok')[:120]})", e["loc"])
     # ... and, whatever the shape of the code, what the instance runs observe: a single-row sweep never runs batched (torch.vmap or
     # autograd's is_grads_batched, which is vmap inside), and the sweeps are the ceil(m/k) blocks
     for entry in ("backward", "mtl_backward"):
@@ -513,6 +522,8 @@ def sweeps_and_guard(index, ctx):
                      and isinstance(n_.value, ast.Call) and norm_text(n_.value.func).split(".")[-1] == "vmap"}
     via_vmap = cfg.nodes_containing(lambda x: isinstance(x, ast.Call) and ((isinstance(x.func, ast.Call) and norm_text(x.func.func).split(".")[-1] == "vmap")
                                                                          or (isinstance(x.func, ast.Name) and x.func.id in vmapped_names)))
+    # a factory: `return torch.vmap(f, ...)` hands the batched callable to the caller, which applies it to the block
+    via_vmap = list(via_vmap) + [n for n in cfg.stmt_nodes() if isinstance(n.ast, ast.Return) and isinstance(n.ast.value, ast.Call) and norm_text(n.ast.value.func).split(".")[-1] == "vmap" and n not in via_vmap]
     direct = [n for n in direct if n not in via_vmap]
     cnt = {sum(1 for n in p if n in direct or n in via_vmap) for p in cfg.acyclic_paths()}
     ctx.require(cnt == {1}, "R2", f"{G.short}: the VJP callable is applied exactly once per block", "one application on every path",
